@@ -116,7 +116,10 @@ PLANS = {
         {"engine": "core", "cfg": "asm-all", "prop": "C02", "tag": "rayon-bfs", "extra": ["--exact-rayon", "1"]}]},
     "C18": {"level": "model_checking", "runs": simple("sched", "default")},
     "C09": {"level": "exploration", "runs": simple("core", "asm-default")},
-    "C10": {"level": "model_checking", "runs": simple("core", "asm-default")},
+    "C10": {"level": "model_checking", "runs": lambda tier: [
+        {"engine": "core", "cfg": "asm-default", "tag": "bfs"},
+        # the trait-level resetting variants (digest::Reset, *_reset) must also leave the state of a new hasher
+        {"engine": "core", "cfg": "asm-all", "prop": "C16", "tag": "traits-reset"}]},
     "C12": {"level": "fault_enumeration", "runs": simple("b3sum", "default")},
     "C13": {"level": "exploration", "runs": simple("b3sum", "default")},
     "C14": {"level": "exploration", "runs": simple("core", "asm-all")},
